@@ -889,6 +889,9 @@ impl PeerHandler {
                     None => "null".to_string(),
                 }
             ),
+            // any other broadcast is named after its variant
+            #[allow(unreachable_patterns)]
+            other => format!("{{\"k\":\"Broad{}\"}}", crate::verif::variant(other)),
         }
     }
 
